@@ -27,6 +27,7 @@ class Mon(LifeCounting):
         LifeCounting.__init__(self, worlds)
         self.last = None      # (conn, app, side, explicit command, answer) of the last acknowledged command
         self.dupped = False
+        self.dup_cmd = None
 
     def observe(self, ev, results, worlds):
         self.counters.note(ev)
@@ -84,13 +85,22 @@ class Mon(LifeCounting):
                 if s0 != s1:
                     viols.append(self.V("later-answers-differ", {"event": list(ev), "base": f0, "with_duplicate": f1},
                                         {"ev": ev[0]}))
+        if ev[0] == "dup":
+            self.dup_cmd = cmd[0]
         if self.dupped:
             a0 = worlds[0].channel_rows()
             a1 = worlds[1].channel_rows()
-            s0 = rename_ids(json.dumps({t: sorted(json_key(x) for x in rs) for t, rs in a0.items()}, sort_keys=True),
-                            worlds[0].issued_ids)
-            s1 = rename_ids(json.dumps({t: sorted(json_key(x) for x in rs) for t, rs in a1.items()}, sort_keys=True),
-                            worlds[1].issued_ids)
+
+            def view(rows):
+                # a close re-sent on a fresh connection goes through open-then-close and refreshes the mailbox's
+                # activity stamp, which the original stateful close does not touch (same ruling as C08 / C10)
+                out = {}
+                for t, rs in rows.items():
+                    out[t] = sorted(json_key(dict(x, updated=None) if (t == "mailboxes" and self.dup_cmd == "close") else x)
+                                    for x in rs)
+                return out
+            s0 = rename_ids(json.dumps(view(a0), sort_keys=True), worlds[0].issued_ids)
+            s1 = rename_ids(json.dumps(view(a1), sort_keys=True), worlds[1].issued_ids)
             if s0 != s1:
                 viols.append(self.V("stored-state-differs", {"event": list(ev), "diff_base_vs_dup": rows_diff(a0, a1)},
                                     {"ev": ev[0], "at_dup": ev[0] == "dup"}))
@@ -98,7 +108,7 @@ class Mon(LifeCounting):
 
     def ghost(self):
         g = LifeCounting.ghost(self)
-        g["dupped"] = self.dupped
+        g["dupped"] = [self.dupped, self.dup_cmd]
         g["last"] = [self.last[0], list(self.last[3])] if self.last else None
         return g
 
